@@ -95,6 +95,7 @@ var c02Sources = []source{
 	{"gsi1", "g", []string{"x", "y", "zz"}, "", nil},
 	{"gsi2", "g", []string{"x", "y", "zz"}, "s", ixSPool},
 	{"lsi1", "h", append(append([]string{}, ixHashPool...), "zz"), "s", ixSPool},
+	{"gsi4", "r", []string{"1", "10", "a", "zz"}, "h", ixHashPool},
 }
 
 var sortConds = []string{"none", "=", "<", "<=", ">", ">=", "between", "begins"}
